@@ -11,6 +11,7 @@ import Driver.Store
 import Driver.Syntax
 import Driver.DryParam
 import Driver.Bytecode
+import Driver.FilterSem
 /-! registry of the areas the driver serves -/
 namespace Driver
 def areas : List (String × Handler) := [
@@ -26,6 +27,8 @@ def areas : List (String × Handler) := [
   ("storeview", StoreD.handle),
   ("nstext", SyntaxD.handle),
   ("dryparam", DryParamD.handle),
-  ("nsbytecode", BytecodeD.handle)
+  ("nsbytecode", BytecodeD.handle),
+  ("filtersem", FilterSemD.handle),
+  ("boolparse", FilterSemD.handleRead)
 ]
 end Driver
